@@ -48,13 +48,15 @@ def main():
         json.dump(d, open(m, "w"), indent=1)
         print(name, d["check"]["detected"], (d["check"]["oracles"] or [""])[0][:160], flush=True)
     sh(["git", "-C", SR, "checkout", "--", "."])
-    if only and "sens" not in only:
+    if only and "sens" not in only and not any(o.startswith("c") and "_" in o for o in only):
         return
     sys.path.insert(0, os.path.join(V, "tools"))
     import sens
     respath = os.path.join(V, "sensitivity", "results.json")
     results = json.load(open(respath)) if os.path.exists(respath) else {}
     for mu in sens.M:
+        if only and "sens" not in only and mu["name"] not in only:
+            continue
         for (f, old, new) in mu["edits"]:
             path = os.path.join(SR, f)
             s = open(path).read()
